@@ -977,7 +977,17 @@ def gen_limiter_fns():
         raise TranslateError(f"limiter/mod.rs: {e}")
 
 
+def gen_queue_fns():
+    sys.path.insert(0, os.path.dirname(os.path.abspath(__file__)))
+    import translate_queue
+    try:
+        return translate_queue.gen(strip_comments(read("node/components/bft/src/lib.rs")))
+    except translate_queue.TErr as e:
+        raise TranslateError(f"bft/src/lib.rs: {e}")
+
+
 TARGETS = {
+    "QueueFns": gen_queue_fns,
     "LimiterFns": gen_limiter_fns,
     "AddrFns": gen_addr_fns,
     "StoreFns": gen_store_fns,
